@@ -1128,6 +1128,92 @@ func runSmoke(k kase) (res result) {
 	return
 }
 
+
+// ---------------------------------------------------------------- stress: in-process handles, free running
+
+// runStress: n replicas connected by real LocalReplicaHandles, every replica increments the counter in a tight
+// loop (read, write value+1, PreCommit, Commit or Abort) until the deadline. No driver control: this is where
+// goroutine-level races of twopc.go show (an assertion failure kills the process and is reported as a crash).
+func runStress(k kase) (res result) {
+	res.ID = k.ID
+	n := k.N
+	rcv := make([]*resources.TwoPCReceiver, n)
+	rs := make([]distsys.ArchetypeResource, n)
+	ids := make([]tla.Value, n)
+	for i := 0; i < n; i++ {
+		ii := i
+		ids[i] = tla.MakeString(fmt.Sprintf("node%d", i))
+		rs[i] = resources.NewTwoPC(tla.MakeNumber(k.Init), "127.0.0.1:0", nil, ids[i], func(r *resources.TwoPCReceiver) { rcv[ii] = r })
+	}
+	for i := 0; i < n; i++ {
+		var hs []resources.ReplicaHandle
+		for j := 0; j < n; j++ {
+			if j != i {
+				hs = append(hs, resources.VerifTwoPCLocalHandle(rcv[j]))
+			}
+		}
+		rs[i].(*resources.TwoPCArchetypeResource).SetReplicas(hs)
+	}
+	deadline := time.Now().Add(time.Duration(k.Deadline) * time.Millisecond)
+	done := make([]int, n)
+	var wg sync.WaitGroup
+	for _, w := range k.Writers {
+		wg.Add(1)
+		go func(i int) {
+			defer wg.Done()
+			r := rs[i]
+			for time.Now().Before(deadline) {
+				v, err := r.ReadValue(iface)
+				if err == nil {
+					err = r.WriteValue(iface, tla.MakeNumber(v.AsNumber()+1))
+				}
+				if err == nil {
+					err = <-r.PreCommit(iface)
+				}
+				if err != nil {
+					r.Abort(iface)
+					continue
+				}
+				r.Commit(iface)
+				done[i]++
+			}
+		}(w)
+	}
+	fin := make(chan struct{})
+	go func() { wg.Wait(); close(fin) }()
+	finished := true
+	select {
+	case <-fin:
+	case <-time.After(time.Until(deadline) + 15*time.Second):
+		finished = false
+	}
+	h := &H{n: n}
+	for i := 0; i < n; i++ {
+		h.nodes = append(h.nodes, &node{idx: i, id: ids[i], rcvr: rcv[i]})
+	}
+	total := 0
+	for _, d := range done {
+		total += d
+	}
+	// commit messages to the slower replicas are sent by goroutines that may still be running
+	waitPoll(3*time.Second, func() bool {
+		for _, nd := range h.nodes {
+			if resources.GetVersion(nd.rcvr) < total {
+				return false
+			}
+		}
+		return true
+	})
+	res.Final = map[string]interface{}{"finished": finished, "done": done, "snaps": h.snaps()}
+	for i := 0; i < n; i++ {
+		func() {
+			defer func() { recover() }()
+			resources.CloseTwoPCReceiver(rcv[i])
+		}()
+	}
+	return
+}
+
 func main() {
 	in := bufio.NewReaderSize(os.Stdin, 1<<20)
 	out := bufio.NewWriter(os.Stdout)
@@ -1142,6 +1228,8 @@ func main() {
 		var r result
 		if k.Kind == "smoke" {
 			r = runSmoke(k)
+		} else if k.Kind == "stress" {
+			r = runStress(k)
 		} else {
 			r = runStepped(k)
 		}
